@@ -1,10 +1,771 @@
-//! E1 controlled scheduler (placeholder: filled in later)
-use crate::report::Reporter;
+//! E1: controlled scheduler for the REAL ParallelSolver (stateless model checking, iterative context bounding).
+//!
+//! The hook of feature `xgillard_ddo_verif` serialises the workers: exactly one worker runs between two scheduling
+//! points (acquisition of the critical mutex, cache / dominance operation outside a critical section, poll of an
+//! armed cut-off, worker start); all others are blocked inside the hook or parked on the solver's condvar.
+use crate::bnb::{judge_solution, vshort};
+use crate::family::*;
+use crate::model::*;
+use crate::rec::*;
+use crate::report::*;
+use crate::run::*;
+use ddo::verif::{Event, Site};
+use ddo::*;
 use serde_json::{json, Value};
-pub fn shared_op_yield() {}
-pub fn cutoff_yield(_armed: bool) {}
-pub fn check(_p: &str, _tier: &str) -> i32 { 2 }
-pub fn c02_parallel_part(_rep: &Reporter) -> (Value, bool) { (json!({"status": "not built yet"}), true) }
-pub fn c05_parallel_part(_rep: &Reporter) -> (Value, bool) { (json!({"status": "not built yet"}), true) }
-pub fn c09_parallel_part(_rep: &Reporter) -> (Value, bool) { (json!({"status": "not built yet"}), true) }
-pub fn c14_parallel_part(_rep: &Reporter) -> (Value, bool) { (json!({"status": "not built yet"}), true) }
+use std::cell::Cell;
+use std::collections::BTreeMap;
+use std::io::{BufRead, BufReader, Write};
+use std::sync::atomic::{AtomicUsize, Ordering::SeqCst};
+use std::sync::{Arc, Condvar, Mutex};
+use std::time::{Duration, Instant};
+
+#[derive(Clone, Copy, Debug, PartialEq)]
+enum Status { NotStarted, AtYield, Running, Parked, Waking, Exited }
+#[derive(Clone, Debug, PartialEq)]
+pub struct Choice { pub enabled: Vec<usize>, pub idx: usize, pub prev_enabled: bool }
+#[derive(Clone, Copy, Debug, PartialEq)]
+enum Phase { Idle, AfterGw(usize), Busy }
+
+struct Core {
+    n: usize,
+    status: Vec<Status>,
+    current: Option<usize>,
+    prev: Option<usize>,
+    prefix: Vec<usize>,
+    trace: Vec<Choice>,
+    deadlock: bool,
+    livelock: bool,
+    abandoned: bool,
+    done: bool,
+    crashed: Vec<usize>,
+    steps: usize,
+    max_steps: usize,
+    last_site: Vec<Option<Site>>,
+    starved: Vec<bool>,
+    diverged: Option<String>,
+    // monitors
+    time: usize,
+    phase: Vec<Phase>,
+    nodes_by_worker: Vec<usize>,
+    exits: Vec<(usize, usize)>,
+    premature: Option<String>,
+    aborting: bool,
+    cs_hash: u64,
+}
+pub struct Exec { m: Mutex<Core>, cv: Condvar, fringe_len: AtomicUsize, cut_fired: AtomicUsize }
+
+thread_local! {
+    static WID: Cell<Option<usize>> = Cell::new(None);
+    static INCS: Cell<bool> = Cell::new(false);
+    /// the execution this worker thread belongs to (a thread of an abandoned execution must never touch a later one)
+    static MYEX: std::cell::RefCell<Option<Arc<Exec>>> = std::cell::RefCell::new(None);
+}
+fn myex() -> Option<Arc<Exec>> { MYEX.with(|m| m.borrow().clone()) }
+static CUR: Mutex<Option<Arc<Exec>>> = Mutex::new(None);
+fn cur() -> Option<Arc<Exec>> { CUR.lock().unwrap().clone() }
+
+impl Exec {
+    fn dispatch(&self, c: &mut Core) {
+        if c.current.is_some() || c.abandoned { return; }
+        if c.status.iter().any(|s| matches!(s, Status::NotStarted | Status::Running | Status::Waking)) { return; }
+        let mut enabled: Vec<usize> = (0..c.n).filter(|i| c.status[*i] == Status::AtYield).collect();
+        if enabled.is_empty() {
+            if c.status.iter().any(|s| *s == Status::Parked) { c.deadlock = true; }
+            self.cv.notify_all();
+            return;
+        }
+        if c.steps >= c.max_steps { c.livelock = true; self.cv.notify_all(); return; }
+        // canonical order: the previous runner first when still enabled (unless it came back empty handed: fair rotation)
+        let mut prev_enabled = false;
+        if let Some(p) = c.prev {
+            if let Some(pos) = enabled.iter().position(|x| *x == p) {
+                if !c.starved[p] { enabled.remove(pos); enabled.insert(0, p); prev_enabled = true; }
+                else { let n = c.n; enabled.sort_by_key(|x| (*x + n - p - 1) % n); }
+            }
+        }
+        let k = c.trace.len();
+        let idx = if k < c.prefix.len() {
+            let i = c.prefix[k];
+            if i >= enabled.len() { c.diverged = Some(format!("replay divergence at decision {}: choice {} but only {:?} enabled", k, i, enabled)); c.abandoned = true; self.cv.notify_all(); return; }
+            i
+        } else { 0 };
+        let chosen = enabled[idx];
+        c.trace.push(Choice { enabled, idx, prev_enabled });
+        c.steps += 1;
+        c.current = Some(chosen);
+        c.prev = Some(chosen);
+        c.status[chosen] = Status::Running;
+        self.cv.notify_all();
+    }
+    fn yield_here(&self, i: usize, site: Option<Site>) {
+        let mut c = self.m.lock().unwrap();
+        if c.abandoned { return; }
+        c.starved[i] = site == Some(Site::GetWorkload) && c.last_site[i] == Some(Site::GetWorkload);
+        c.last_site[i] = site;
+        c.status[i] = Status::AtYield;
+        if c.current == Some(i) { c.current = None; }
+        self.dispatch(&mut c);
+        while c.current != Some(i) && !c.abandoned { c = self.cv.wait(c).unwrap(); }
+    }
+}
+
+fn hook(e: Event) {
+    if let Event::WorkerStart(i) = e {
+        let ex = match cur() { Some(x) => x, None => return };
+        WID.with(|w| w.set(Some(i)));
+        MYEX.with(|m| *m.borrow_mut() = Some(ex.clone()));
+        ex.yield_here(i, None);
+        return;
+    }
+    let ex = match myex() { Some(x) => x, None => return };
+    match e {
+        Event::WorkerStart(_) => (),
+        Event::WorkerExit { id, panicking } => {
+            let mut c = ex.m.lock().unwrap();
+            c.status[id] = Status::Exited;
+            c.time += 1;
+            if panicking { c.crashed.push(id); }
+            else if !c.aborting && ex.cut_fired.load(SeqCst) == 0 && c.premature.is_none() {
+                // the search is declared complete: nothing may be open or in progress
+                let open = ex.fringe_len.load(SeqCst);
+                if open > 0 { c.premature = Some(format!("worker {} left with Complete while {} sub-problems are open in the fringe", id, open)); }
+                if let Some(b) = (0..c.n).find(|j| *j != id && c.phase[*j] == Phase::Busy) { c.premature = Some(format!("worker {} left with Complete while worker {} is processing a sub-problem", id, b)); }
+                let t = c.time;
+                c.exits.push((id, t));
+            }
+            if c.current == Some(id) { c.current = None; }
+            ex.dispatch(&mut c);
+            WID.with(|w| w.set(None));
+            drop(c);
+            MYEX.with(|m| *m.borrow_mut() = None);
+        }
+        Event::Acquire(site) => {
+            if let Some(i) = WID.with(|w| w.get()) {
+                ex.yield_here(i, Some(site));
+                INCS.with(|f| f.set(true));
+                let mut c = ex.m.lock().unwrap();
+                c.time += 1;
+                c.cs_hash = c.cs_hash.wrapping_mul(0x100000001b3).wrapping_add((i as u64) << 8 | site as u64);
+                if site == Site::AbortSearch { c.aborting = true; }
+                match (site, c.phase[i]) {
+                    (Site::BestLb, Phase::AfterGw(t)) => {
+                        c.phase[i] = Phase::Busy;
+                        c.nodes_by_worker[i] += 1;
+                        if let Some((j, te)) = c.exits.iter().find(|(_, te)| *te > t).copied() { if c.premature.is_none() { c.premature = Some(format!("worker {} left with Complete (t={}) while worker {} already held a sub-problem (since t={})", j, te, i, t)); } }
+                    }
+                    (Site::GetWorkload, Phase::AfterGw(_)) => c.phase[i] = Phase::Idle,
+                    _ => (),
+                }
+            }
+        }
+        Event::Released(site) => {
+            INCS.with(|f| f.set(false));
+            if let Some(i) = WID.with(|w| w.get()) {
+                let mut c = ex.m.lock().unwrap();
+                c.time += 1;
+                let t = c.time;
+                match site { Site::GetWorkload => c.phase[i] = Phase::AfterGw(t), Site::NotifyNodeFinished => c.phase[i] = Phase::Idle, _ => () }
+            }
+        }
+        Event::BeforeWait => {
+            if let Some(i) = WID.with(|w| w.get()) {
+                let mut c = ex.m.lock().unwrap();
+                c.status[i] = Status::Parked;
+                c.last_site[i] = None;
+                if c.current == Some(i) { c.current = None; }
+                ex.dispatch(&mut c);
+            }
+        }
+        Event::AfterNotifyAll => {
+            let mut c = ex.m.lock().unwrap();
+            for j in 0..c.n { if c.status[j] == Status::Parked { c.status[j] = Status::Waking; } }
+        }
+    }
+}
+
+/// called by the cache / dominance wrappers before every operation
+pub fn shared_op_yield() {
+    if INCS.with(|f| f.get()) { return; }
+    if let Some(i) = WID.with(|w| w.get()) { if let Some(ex) = myex() { ex.yield_here(i, None); } }
+}
+/// called by the cut-off wrapper before every poll
+pub fn cutoff_yield(armed: bool) {
+    if !armed { return; }
+    if let Some(i) = WID.with(|w| w.get()) { if let Some(ex) = myex() { ex.yield_here(i, None); } }
+}
+
+/// Fringe wrapper: tells the monitors how many sub-problems are open
+struct WFringe<'a> { inner: &'a mut (dyn Fringe<State = St> + Send + Sync), ex: Arc<Exec> }
+impl Fringe for WFringe<'_> {
+    type State = St;
+    fn push(&mut self, node: SubProblem<St>) { self.inner.push(node); self.ex.fringe_len.store(self.inner.len(), SeqCst); }
+    fn pop(&mut self) -> Option<SubProblem<St>> { let r = self.inner.pop(); self.ex.fringe_len.store(self.inner.len(), SeqCst); r }
+    fn clear(&mut self) { self.inner.clear(); self.ex.fringe_len.store(0, SeqCst); }
+    fn len(&self) -> usize { self.inner.len() }
+}
+
+struct CutW { inner: KCut, ex: Arc<Exec> }
+impl Cutoff for CutW {
+    fn must_stop(&self) -> bool { let r = self.inner.must_stop(); if r { self.ex.cut_fired.store(1, SeqCst); } r }
+}
+
+#[derive(Clone, Debug)]
+pub struct Unit {
+    pub fam: String,
+    pub idx: u64,
+    pub var: Variant,
+    pub cfg: Cfg,
+    pub construct: usize,
+    pub run: usize,
+    /// usize::MAX = no cut-off; 0 = enumerate every poll index of the default schedule
+    pub cut: CutMode,
+    pub bound: usize,
+    pub primal: bool,
+}
+#[derive(Clone, Copy, Debug, PartialEq)]
+pub enum CutMode { None, EveryPoll }
+impl Unit {
+    fn json(&self) -> Value { json!({"family": self.fam, "idx": self.idx, "variant": self.var.json(), "cfg": self.cfg.json(), "construct_threads": self.construct, "run_threads": self.run, "cut": format!("{:?}", self.cut), "bound": self.bound, "primal": self.primal}) }
+    fn from_json(v: &Value) -> Unit {
+        Unit { fam: v["family"].as_str().unwrap().to_string(), idx: v["idx"].as_u64().unwrap(), var: Variant::from_json(&v["variant"]), cfg: Cfg::from_json(&v["cfg"]), construct: v["construct_threads"].as_u64().unwrap() as usize,
+               run: v["run_threads"].as_u64().unwrap() as usize, cut: if v["cut"].as_str() == Some("EveryPoll") { CutMode::EveryPoll } else { CutMode::None }, bound: v["bound"].as_u64().unwrap() as usize, primal: v["primal"].as_bool().unwrap_or(false) }
+    }
+}
+
+#[derive(Clone, Debug, Default)]
+pub struct ExecOut {
+    pub out: Out,
+    pub completed: bool,
+    pub deadlock: bool,
+    pub livelock: bool,
+    pub hang: bool,
+    pub diverged: Option<String>,
+    pub crashed: Vec<usize>,
+    pub premature: Option<String>,
+    pub trace: Vec<Choice>,
+    pub steps: usize,
+    pub workers_with_nodes: usize,
+    pub cs_hash: u64,
+    pub cut_fired: bool,
+    pub statuses: String,
+}
+
+macro_rules! par_dispatch {
+    ($cfg:expr, $f:ident, $($args:expr),*) => {
+        match ($cfg.dd, $cfg.cache) {
+            (DdKind::Lel, false) => $f::<DefaultMDDLEL<St>, EmptyCache<St>>($($args),*),
+            (DdKind::Lel, true) => $f::<DefaultMDDLEL<St>, RecCache>($($args),*),
+            (DdKind::Fc, false) => $f::<DefaultMDDFC<St>, EmptyCache<St>>($($args),*),
+            (DdKind::Fc, true) => $f::<DefaultMDDFC<St>, RecCache>($($args),*),
+            (DdKind::Pooled, false) => $f::<Pooled<St>, EmptyCache<St>>($($args),*),
+            (DdKind::Pooled, true) => $f::<Pooled<St>, RecCache>($($args),*),
+        }
+    };
+}
+
+fn solve_par<D, C>(m: &dyn Model, u: &Unit, fire_at: usize, primal: &Option<(isize, Vec<Decision>)>, ex: Arc<Exec>) -> Out
+where D: DecisionDiagram<State = St> + Default, C: Cache<State = St> + Default + Send + Sync {
+    let rec = RecModel(m);
+    let rank = RankRef(m);
+    let width = FixedWidth(u.cfg.width);
+    let dom = RecDom::new(m);
+    let cut = CutW { inner: KCut::new(fire_at, fuel_for(m)), ex: ex.clone() };
+    let mut simple = SimpleFringe::new(MaxUB::new(&rank));
+    let mut nodup = NoDupFringe::new(MaxUB::new(&rank));
+    let inner: &mut (dyn Fringe<State = St> + Send + Sync) = if u.cfg.nodup { &mut nodup } else { &mut simple };
+    let mut wf = WFringe { inner, ex };
+    let mut out = Out::default();
+    let mut solver = ParallelSolver::<St, D, C>::custom(&rec, &rec, &rec, &width, &dom, &cut, &mut wf, u.construct);
+    if u.construct != u.run { solver = solver.with_nb_threads(u.run); }
+    if let Some((v, s)) = primal { solver.set_primal(*v, s.clone()); }
+    let r = std::panic::catch_unwind(std::panic::AssertUnwindSafe(|| solver.maximize()));
+    match r {
+        Err(_) => { out.panicked = Some(take_panic_msg()); }
+        Ok(c) => {
+            out.is_exact = c.is_exact;
+            out.completion_value = c.best_value;
+            out.best_value = solver.best_value();
+            out.best_solution = solver.best_solution();
+            out.lb = solver.best_lower_bound();
+            out.ub = solver.best_upper_bound();
+            out.explored = solver.explored();
+            out.gap = solver.gap();
+        }
+    }
+    out.polls = cut.inner.polls.load(SeqCst);
+    out.fuel_out = cut.inner.exhausted.load(SeqCst);
+    out
+}
+
+/// One execution of the real parallel solver under the schedule `prefix` (then default choices)
+pub fn run_once(m: Arc<dyn Model>, u: &Unit, fire_at: usize, primal: &Option<(isize, Vec<Decision>)>, prefix: Vec<usize>, max_steps: usize) -> ExecOut {
+    let n = u.run;
+    let ex = Arc::new(Exec {
+        m: Mutex::new(Core { n, status: vec![Status::NotStarted; n], current: None, prev: None, prefix, trace: vec![], deadlock: false, livelock: false, abandoned: false, done: false, crashed: vec![], steps: 0, max_steps,
+                             last_site: vec![None; n], starved: vec![false; n], diverged: None, time: 0, phase: vec![Phase::Idle; n], nodes_by_worker: vec![0; n], exits: vec![], premature: None, aborting: false, cs_hash: 0xcbf29ce484222325 }),
+        cv: Condvar::new(), fringe_len: AtomicUsize::new(0), cut_fired: AtomicUsize::new(0),
+    });
+    *CUR.lock().unwrap() = Some(ex.clone());
+    let result: Arc<Mutex<Option<Out>>> = Arc::new(Mutex::new(None));
+    {
+        let (m2, u2, primal2, ex2, res2) = (m.clone(), u.clone(), primal.clone(), ex.clone(), result.clone());
+        std::thread::spawn(move || {
+            let out = par_dispatch!(u2.cfg, solve_par, m2.as_ref(), &u2, fire_at, &primal2, ex2.clone());
+            *res2.lock().unwrap() = Some(out);
+            let mut c = ex2.m.lock().unwrap();
+            c.done = true;
+            ex2.cv.notify_all();
+        });
+    }
+    let start = Instant::now();
+    let mut c = ex.m.lock().unwrap();
+    let mut hang = false;
+    loop {
+        if c.done || c.deadlock || c.livelock || c.diverged.is_some() { break; }
+        let (g, to) = ex.cv.wait_timeout(c, Duration::from_millis(200)).unwrap();
+        c = g;
+        if to.timed_out() && start.elapsed() > Duration::from_secs(20) { hang = true; break; }
+    }
+    let mut eo = ExecOut::default();
+    eo.completed = c.done;
+    eo.deadlock = c.deadlock && !c.done;
+    eo.livelock = c.livelock && !c.done;
+    eo.hang = hang;
+    eo.diverged = c.diverged.clone();
+    eo.crashed = c.crashed.clone();
+    eo.premature = c.premature.clone();
+    eo.trace = c.trace.clone();
+    eo.steps = c.steps;
+    eo.workers_with_nodes = c.nodes_by_worker.iter().filter(|x| **x > 0).count();
+    eo.cs_hash = c.cs_hash;
+    eo.statuses = format!("{:?}", c.status);
+    eo.cut_fired = ex.cut_fired.load(SeqCst) != 0;
+    if !c.done { c.abandoned = true; ex.cv.notify_all(); }
+    drop(c);
+    *CUR.lock().unwrap() = None;
+    if eo.completed { eo.out = result.lock().unwrap().take().unwrap_or_default(); }
+    eo
+}
+
+pub struct Finding { pub prop: &'static str, pub sig: String, pub what: String }
+
+fn pclass(m: &dyn Model, u: &Unit) -> String {
+    format!("{:?}:{}:{}{}", u.cfg.dd, if u.cfg.cache { "cache" } else { "nocache" }, if m.depth_embedded() { "depth" } else { "flat" }, if m.has_long_arcs() { "+longarcs" } else { "" }).to_lowercase()
+}
+
+/// monitors evaluated on every execution
+pub fn judge_exec(m: &dyn Model, u: &Unit, fire_at: usize, primal: Option<isize>, e: &ExecOut) -> Vec<Finding> {
+    let mut f = vec![];
+    let tc = if u.construct == u.run { "same-count" } else if u.run > u.construct { "more-threads-than-constructed" } else { "fewer-threads-than-constructed" };
+    if e.deadlock {
+        f.push(Finding { prop: "C04", sig: format!("par:deadlock:{}{}", tc, if e.crashed.is_empty() { "" } else { ":after-worker-crash" }), what: format!("no runnable worker while some worker is parked on the condvar (statuses {}; crashed workers {:?})", e.statuses, e.crashed) });
+        return f;
+    }
+    if e.hang { f.push(Finding { prop: "C04", sig: format!("par:hang:{}", tc), what: format!("a worker did not reach its next scheduling point within 20 s (statuses {})", e.statuses) }); return f; }
+    if e.livelock {
+        f.push(Finding { prop: "C04", sig: format!("par:nonterm:{}", pclass(m, u)), what: format!("no termination within {} scheduling decisions under the fair default continuation", e.steps) });
+        return f;
+    }
+    if !e.crashed.is_empty() || e.out.panicked.is_some() {
+        f.push(Finding { prop: "C04", sig: format!("par:crash:{}", tc), what: format!("worker(s) {:?} panicked: {}", e.crashed, e.out.panicked.clone().unwrap_or_default()) });
+        return f;
+    }
+    if e.out.fuel_out { f.push(Finding { prop: "C04", sig: format!("par:nonterm:{}", pclass(m, u)), what: format!("fuel bound hit after {} polls", e.out.polls) }); return f; }
+    if let Some(p) = &e.premature { f.push(Finding { prop: "C04", sig: "par:premature-complete".to_string(), what: p.clone() }); }
+    let opt = m.opt();
+    let o = &e.out;
+    if fire_at == usize::MAX || !e.cut_fired {
+        let target = match (opt, primal) { (Some(a), Some(p)) => Some(a.max(p)), (None, Some(p)) => Some(p), (a, None) => a };
+        let p1 = if primal.is_some() { "C14" } else { "C03" };
+        if !o.is_exact { f.push(Finding { prop: p1, sig: "par:inexact".to_string(), what: "uninterrupted parallel maximize() reported is_exact = false".to_string() }); }
+        if o.best_value != target {
+            let sig = format!("par:wrongopt:{}", pclass(m, u));
+            let what = format!("best value {:?} but the optimum is {:?} (primal {:?})", o.best_value, opt, primal);
+            if u.cfg.cache && primal.is_none() { f.push(Finding { prop: "C09", sig: sig.clone(), what: what.clone() }); }
+            if m.has_long_arcs() && primal.is_none() { f.push(Finding { prop: "C15", sig: sig.clone(), what: what.clone() }); }
+            f.push(Finding { prop: p1, sig, what });
+        }
+        for x in judge_solution(m, o, primal, true) { f.push(Finding { prop: "C02", sig: format!("par:{}", x.sig), what: x.what }); }
+    } else {
+        let ov = opt.unwrap_or(isize::MIN);
+        if o.lb > ov { f.push(Finding { prop: "C05", sig: "par:cut:lb-above-opt".to_string(), what: format!("lb {} > optimum {:?}", o.lb, opt) }); }
+        if o.ub < ov { f.push(Finding { prop: "C05", sig: format!("par:cut:ub-below-opt{}", if o.ub == o.lb { ":ub=lb" } else { "" }), what: format!("after the cut-off: ub {} < optimum {:?} (lb {}, is_exact {})", o.ub, opt, o.lb, o.is_exact) }); }
+        if opt.is_none() && o.best_value.is_some() { f.push(Finding { prop: "C05", sig: "par:cut:value-for-infeasible".to_string(), what: format!("value {:?} for an infeasible problem", o.best_value) }); }
+        if o.is_exact && o.best_value != opt { f.push(Finding { prop: "C05", sig: "par:cut:exact-but-wrong".to_string(), what: format!("is_exact but value {:?} != optimum {:?}", o.best_value, opt) }); }
+        for x in judge_solution(m, o, None, false) { f.push(Finding { prop: "C05", sig: format!("par:cut:{}", x.sig), what: x.what.clone() }); f.push(Finding { prop: "C02", sig: format!("par:cut:{}", x.sig), what: x.what }); }
+    }
+    f
+}
+
+#[derive(Default, Clone, Debug)]
+pub struct UStats {
+    pub executions: u64,
+    pub decision_nodes: u64,
+    pub steps: u64,
+    pub distinct_cs_traces: u64,
+    pub distinct_outcomes: u64,
+    pub concurrent_execs: u64,
+    pub blocked: u64,
+    pub cut_fired_execs: u64,
+    pub cut_indices: u64,
+    pub completed_bound: i64,
+    pub violations: Vec<(String, String, String, Value)>,
+    pub machinery: Vec<String>,
+    pub capped: bool,
+    pub leaked: u64,
+}
+
+/// Explores all schedules of a unit with at most `bound` pre-emptions (iterative context bounding: 0, 1, .., bound)
+pub fn explore_unit(u: &Unit, exec_cap: u64, deadline: Instant) -> UStats {
+    let fam = family(&u.fam);
+    let m: Arc<dyn Model> = Arc::from(fam.build(u.idx, u.var));
+    let primal: Option<(isize, Vec<Decision>)> = if u.primal { let a = m.achievable(); if a.is_empty() { None } else { Some(a[a.len() / 2].clone()) } } else { None };
+    let mut st = UStats::default();
+    st.completed_bound = -1;
+    let mut cs: std::collections::HashSet<u64> = Default::default();
+    let mut outcomes: std::collections::HashSet<(Option<isize>, usize, isize, isize, bool)> = Default::default();
+    // default schedule first: number of polls K
+    let base = run_once(m.clone(), u, usize::MAX, &primal, vec![], 20_000);
+    let max_steps = if base.completed { base.steps * 50 + 2000 } else { 20_000 };
+    let fires: Vec<usize> = match u.cut {
+        CutMode::None => vec![usize::MAX],
+        CutMode::EveryPoll => if base.completed { (1..=base.out.polls + 1).collect() } else { vec![1] },
+    };
+    st.cut_indices = if u.cut == CutMode::EveryPoll { fires.len() as u64 } else { 0 };
+    let mut sigs_seen: std::collections::HashSet<String> = Default::default();
+    'bounds: for bound in 0..=u.bound {
+        for fire_at in fires.iter().copied() {
+            // DFS over prefixes; at bound b only executions with exactly b pre-emptions are new
+            let mut stack: Vec<(Vec<usize>, usize)> = vec![(vec![], 0)];
+            while let Some((prefix, pre_used)) = stack.pop() {
+                if Instant::now() > deadline || st.executions >= exec_cap || st.leaked >= 50 { st.capped = true; break 'bounds; }
+                let plen = prefix.len();
+                let e = run_once(m.clone(), u, fire_at, &primal, prefix.clone(), max_steps);
+                if let Some(d) = &e.diverged { st.machinery.push(format!("{} in unit {}", d, u.json())); st.capped = true; break 'bounds; }
+                if !e.completed { st.leaked += 1; }
+                // count (and judge) only the executions whose number of pre-emptions is exactly `bound`
+                let mut pre = 0usize;
+                for ch in e.trace.iter() { if ch.prev_enabled && ch.idx != 0 { pre += 1; } }
+                let _ = pre_used;
+                if pre == bound {
+                    st.executions += 1;
+                    st.decision_nodes += e.trace.iter().skip(plen).count() as u64 + if plen == 0 { 0 } else { 0 };
+                    st.steps += e.steps as u64;
+                    cs.insert(e.cs_hash);
+                    outcomes.insert((e.out.best_value, e.out.explored, e.out.lb, e.out.ub, e.out.is_exact));
+                    if e.workers_with_nodes >= 2 { st.concurrent_execs += 1; }
+                    if e.cut_fired { st.cut_fired_execs += 1; }
+                    let fs = judge_exec(m.as_ref(), u, fire_at, primal.as_ref().map(|p| p.0), &e);
+                    if !e.completed { st.blocked += 1; }
+                    for x in fs {
+                        let key = format!("{}:{}", x.prop, x.sig);
+                        if sigs_seen.insert(key) {
+                            // replay twice: the traces must be identical before anything is reported
+                            let sched: Vec<usize> = e.trace.iter().map(|c| c.idx).collect();
+                            let r1 = run_once(m.clone(), u, fire_at, &primal, sched.clone(), max_steps);
+                            let r2 = run_once(m.clone(), u, fire_at, &primal, sched.clone(), max_steps);
+                            if !r1.completed { st.leaked += 1; }
+                            if !r2.completed { st.leaked += 1; }
+                            if r1.trace != e.trace || r2.trace != e.trace || r1.diverged.is_some() || r2.diverged.is_some() || r1.cs_hash != e.cs_hash || r2.cs_hash != e.cs_hash {
+                                st.machinery.push(format!("replay of a violating schedule is not deterministic ({}:{}) unit {} schedule {:?}", x.prop, x.sig, u.json(), sched));
+                            } else {
+                                st.violations.push((x.prop.to_string(), x.sig, x.what, json!({"engine": "sched", "unit": u.json(), "fire_at": if fire_at == usize::MAX { json!(null) } else { json!(fire_at) }, "schedule": sched,
+                                    "model": m.describe(), "outcome": e.out.json(), "deadlock": e.deadlock, "crashed": e.crashed, "preemptions": pre})));
+                            }
+                        }
+                    }
+                }
+                // children: deviate at a later decision, within the budget
+                let mut used = 0usize;
+                let choices: Vec<usize> = e.trace.iter().map(|c| c.idx).collect();
+                for (i, ch) in e.trace.iter().enumerate() {
+                    if i >= plen {
+                        for alt in 1..ch.enabled.len() {
+                            let cost = used + if ch.prev_enabled { 1 } else { 0 };
+                            if cost <= bound {
+                                // to avoid re-exploring at bound b the executions of bounds < b, a deviation which is free
+                                // (forced switch) is always taken, a paying one only if the total can still reach `bound`
+                                let mut p = choices[..i].to_vec();
+                                p.push(alt);
+                                stack.push((p, cost));
+                            }
+                        }
+                    }
+                    if ch.prev_enabled && ch.idx != 0 { used += 1; }
+                }
+            }
+        }
+        st.completed_bound = bound as i64;
+    }
+    st.distinct_cs_traces = cs.len() as u64;
+    st.distinct_outcomes = outcomes.len() as u64;
+    st
+}
+
+// ------------------------------------------------------------------------------------------------------------
+// worker processes
+// ------------------------------------------------------------------------------------------------------------
+extern "C" { fn sched_setaffinity(pid: i32, cpusetsize: usize, mask: *const u64) -> i32; }
+fn pin_to_core(core: usize) {
+    let mut mask = [0u64; 16];
+    mask[core / 64] |= 1 << (core % 64);
+    unsafe { sched_setaffinity(0, std::mem::size_of_val(&mask), mask.as_ptr()); }
+}
+
+/// `mc sched-worker <units.json> <stripe> <nstripes> <deadline_s> <exec_cap>`: explores the units of its stripe, one JSON line per unit
+pub fn worker_main(args: &[String]) -> i32 {
+    let units: Vec<Value> = serde_json::from_str(&std::fs::read_to_string(&args[0]).unwrap()).unwrap();
+    let stripe: usize = args[1].parse().unwrap();
+    let n: usize = args[2].parse().unwrap();
+    let deadline = Instant::now() + Duration::from_secs_f64(args[3].parse().unwrap());
+    let exec_cap: u64 = args[4].parse().unwrap();
+    let start_from: usize = args.get(5).and_then(|s| s.parse().ok()).unwrap_or(0);
+    pin_to_core(stripe % std::thread::available_parallelism().map(|n| n.get()).unwrap_or(1));
+    ddo::verif::set_hook(Some(Arc::new(hook)));
+    let stdout = std::io::stdout();
+    let mut leaked = 0;
+    for (pos, uv) in units.iter().enumerate() {
+        if pos % n != stripe || pos < start_from { continue; }
+        let u = Unit::from_json(uv);
+        let t0 = Instant::now();
+        let st = if Instant::now() > deadline { let mut s = UStats::default(); s.capped = true; s.completed_bound = -1; s } else { explore_unit(&u, exec_cap, deadline) };
+        leaked += st.leaked;
+        let line = json!({"pos": pos, "executions": st.executions, "decision_nodes": st.decision_nodes, "steps": st.steps, "distinct_cs_traces": st.distinct_cs_traces, "distinct_outcomes": st.distinct_outcomes,
+            "concurrent_execs": st.concurrent_execs, "blocked": st.blocked, "cut_fired_execs": st.cut_fired_execs, "cut_indices": st.cut_indices, "completed_bound": st.completed_bound, "capped": st.capped, "leaked": st.leaked,
+            "violations": st.violations.iter().map(|(p, s, w, r)| json!({"prop": p, "sig": s, "what": w, "replay": r})).collect::<Vec<_>>(), "machinery": st.machinery, "wall_s": t0.elapsed().as_secs_f64()});
+        let mut lock = stdout.lock();
+        let _ = writeln!(lock, "{}", line);
+        let _ = lock.flush();
+        // too many abandoned executions (threads parked for ever): continue in a fresh process
+        if leaked >= 40 { return 3; }
+    }
+    0
+}
+
+pub struct Campaign { pub cov: Value, pub complete: bool, pub states: u64, pub transitions: u64, pub executions: u64, pub concurrent: u64 }
+
+/// Farms the units out to one pinned process per core and aggregates
+pub fn explore_units(rep: &Reporter, focus: &[&str], units: &[Unit], budget_s: f64, exec_cap: u64) -> Campaign {
+    let dir = format!("{}/.build/sched", verif_dir());
+    let _ = std::fs::create_dir_all(&dir);
+    let file = format!("{}/units-{}-{}.json", dir, rep.property, std::process::id());
+    std::fs::write(&file, serde_json::to_string(&units.iter().map(|u| u.json()).collect::<Vec<_>>()).unwrap()).unwrap();
+    let n = crate::par::nthreads().min(units.len().max(1));
+    let exe = std::env::current_exe().unwrap();
+    let t0 = Instant::now();
+    let mut results: Vec<Option<Value>> = vec![None; units.len()];
+    let results_m = Mutex::new(&mut results);
+    let machinery = Mutex::new(vec![]);
+    std::thread::scope(|s| {
+        for stripe in 0..n {
+            let (file, exe, results_m, machinery) = (&file, &exe, &results_m, &machinery);
+            s.spawn(move || {
+                let mut start_from = 0usize;
+                let mut respawns = 0;
+                loop {
+                    let remaining = (budget_s - t0.elapsed().as_secs_f64()).max(0.0);
+                    let mut child = std::process::Command::new(exe).arg("sched-worker").arg(file).arg(stripe.to_string()).arg(n.to_string()).arg(format!("{}", remaining)).arg(exec_cap.to_string()).arg(start_from.to_string())
+                        .stdout(std::process::Stdio::piped()).stderr(std::process::Stdio::null()).spawn().expect("cannot spawn worker process");
+                    let out = child.stdout.take().unwrap();
+                    let mut last_pos = None;
+                    for line in BufReader::new(out).lines() {
+                        if let Ok(l) = line { if let Ok(v) = serde_json::from_str::<Value>(&l) { let pos = v["pos"].as_u64().unwrap() as usize; last_pos = Some(pos); results_m.lock().unwrap()[pos] = Some(v); } }
+                    }
+                    let code = child.wait().map(|s| s.code().unwrap_or(-1)).unwrap_or(-1);
+                    if code == 0 { break; }
+                    respawns += 1;
+                    start_from = last_pos.map_or(start_from + 1, |p| p + 1);
+                    if code != 3 { machinery.lock().unwrap().push(format!("worker process of stripe {} ended with status {} (restarted after unit {:?})", stripe, code, last_pos)); if last_pos.is_none() { start_from += n; } }
+                    if respawns > 200 || start_from >= units.len() { break; }
+                }
+            });
+        }
+    });
+    let _ = std::fs::remove_file(&file);
+    let mut agg: BTreeMap<&str, u64> = BTreeMap::new();
+    let mut complete = true;
+    let mut done_units = 0u64;
+    let mut by_class: BTreeMap<String, (u64, u64, i64)> = BTreeMap::new();
+    let mut samples = vec![];
+    for (pos, r) in results.iter().enumerate() {
+        let u = &units[pos];
+        match r {
+            None => { complete = false; }
+            Some(v) => {
+                done_units += 1;
+                for k in ["executions", "decision_nodes", "steps", "distinct_cs_traces", "distinct_outcomes", "concurrent_execs", "blocked", "cut_fired_execs", "cut_indices", "leaked"] { *agg.entry(k).or_insert(0) += v[k].as_u64().unwrap_or(0); }
+                if v["capped"].as_bool().unwrap_or(false) || v["completed_bound"].as_i64().unwrap_or(-1) < u.bound as i64 { complete = false; }
+                let cls = format!("{} workers (constructed for {}), cut={:?}, bound {}", u.run, u.construct, u.cut, u.bound);
+                let e = by_class.entry(cls).or_insert((0, 0, i64::MAX));
+                e.0 += 1; e.1 += v["executions"].as_u64().unwrap_or(0); e.2 = e.2.min(v["completed_bound"].as_i64().unwrap_or(-1));
+                for x in v["violations"].as_array().unwrap() {
+                    let prop = x["prop"].as_str().unwrap();
+                    if focus.contains(&prop) { rep.violation(x["sig"].as_str().unwrap().to_string(), x["what"].as_str().unwrap().to_string(), x["replay"].clone()); }
+                }
+                for mm in v["machinery"].as_array().unwrap() { rep.engine_error(mm.as_str().unwrap().to_string()); }
+                if samples.len() < 3 && v["concurrent_execs"].as_u64().unwrap_or(0) > 0 { samples.push(json!({"unit": u.json(), "executions": v["executions"], "distinct_critical_section_traces": v["distinct_cs_traces"], "completed_bound": v["completed_bound"]})); }
+            }
+        }
+    }
+    for mm in machinery.lock().unwrap().iter() { rep.engine_error(mm.clone()); }
+    let g = |k: &str| agg.get(k).copied().unwrap_or(0);
+    let cov = json!({
+        "units": units.len(), "units_done": done_units, "executions": g("executions"), "states": g("decision_nodes"), "transitions": g("steps"), "traces_validated_against_impl": g("executions"),
+        "distinct_critical_section_traces": g("distinct_cs_traces"), "distinct_outcomes_summed_over_units": g("distinct_outcomes"), "executions_with_2+_workers_processing_nodes": g("concurrent_execs"),
+        "executions_blocked_by_another_monitor": g("blocked"), "executions_in_which_the_cutoff_fired": g("cut_fired_execs"), "cutoff_indices_enumerated": g("cut_indices"), "abandoned_executions": g("leaked"),
+        "by_class": by_class.iter().map(|(k, v)| json!({"class": k, "units": v.0, "executions": v.1, "min_completed_preemption_bound": v.2})).collect::<Vec<_>>(),
+        "exhaustive_within_bounds": complete, "samples": samples, "wall_s": t0.elapsed().as_secs_f64(),
+        "explanation": "stateless exploration (iterative context bounding) of the real ParallelSolver under a controlled scheduler: states = decision nodes of the schedule tree, transitions = scheduling steps, every execution is a run of the implementation",
+    });
+    Campaign { cov, complete, states: g("decision_nodes"), transitions: g("steps"), executions: g("executions"), concurrent: g("concurrent_execs") }
+}
+
+// ------------------------------------------------------------------------------------------------------------
+// unit lists
+// ------------------------------------------------------------------------------------------------------------
+/// deterministic instance list: the first `m` instances (enumeration order) of a family/variant whose sequential
+/// search (LEL, no cache, simple fringe, width 1) processes >= 3 sub-problems
+pub fn interesting(fam_name: &str, var: Variant, m: usize, stride: u64) -> Vec<(String, u64, Variant)> {
+    let fam = family(fam_name);
+    let mut out = vec![];
+    let mut idx = 0u64;
+    while out.len() < m && idx < fam.count() {
+        let md = fam.build(idx, var);
+        let o = run_seq(md.as_ref(), &RunSpec::plain(Cfg { dd: DdKind::Lel, cache: false, nodup: false, width: 1 }));
+        if o.explored >= 3 && o.panicked.is_none() && !o.fuel_out { out.push((fam_name.to_string(), idx, var)); }
+        idx += stride;
+    }
+    out
+}
+
+fn instance_list(th: bool) -> Vec<(String, u64, Variant)> {
+    let base = Variant::BASE;
+    let flat = Variant { flat: true, ..base };
+    let rub = Variant { rub: Rub::Exact, ..base };
+    let dom = Variant { dom: Dom::Exact, ..base };
+    let sp = Variant { flat: true, la: false, ..base };
+    let k = if th { 6 } else { 2 };
+    let mut v = vec![];
+    v.extend(interesting("TM-B4", base, k, 97));
+    v.extend(interesting("TM-B4", flat, k, 193));
+    v.extend(interesting("TM-N0.1", base, k, 7));
+    v.extend(interesting("TM-N1.1", rub, k, 11));
+    v.extend(interesting("TM-N2.1", dom, k.min(3), 13));
+    v.extend(interesting("SP-4", sp, k, 211));
+    v
+}
+
+fn cfgs12(width: usize) -> Vec<Cfg> { Cfg::full(&[width]) }
+
+fn units_c03(th: bool) -> Vec<Unit> {
+    let mut v = vec![];
+    for (fam, idx, var) in instance_list(th) {
+        for w in if th { vec![1usize, 2] } else { vec![1usize] } {
+            for cfg in cfgs12(w) {
+                let mut tb = vec![(1usize, 0usize), (2, 2), (3, 1)];
+                if th { tb = vec![(1, 0), (2, 3), (3, 2), (4, 1)]; }
+                for (t, b) in tb { v.push(Unit { fam: fam.clone(), idx, var, cfg, construct: t, run: t, cut: CutMode::None, bound: b, primal: false }); }
+            }
+        }
+    }
+    v
+}
+fn units_c04(th: bool) -> Vec<Unit> {
+    let mut v = units_c03(th);
+    let insts = instance_list(th);
+    // thread-count pairs and the cut-off at every poll
+    for (fam, idx, var) in insts.iter().take(if th { 12 } else { 4 }) {
+        for cfg in [Cfg { dd: DdKind::Lel, cache: false, nodup: false, width: 1 }, Cfg { dd: DdKind::Fc, cache: true, nodup: true, width: 1 }, Cfg { dd: DdKind::Pooled, cache: true, nodup: false, width: 1 }] {
+            let maxc = if th { 4 } else { 3 };
+            for c in 1..=maxc { for r in 1..=(if th { 6 } else { 3 }) { if c != r { v.push(Unit { fam: fam.clone(), idx: *idx, var: *var, cfg, construct: c, run: r, cut: CutMode::None, bound: 1.min(if r > 4 { 0 } else { 1 }), primal: false }); } } }
+            for t in [2usize, 3] { v.push(Unit { fam: fam.clone(), idx: *idx, var: *var, cfg, construct: t, run: t, cut: CutMode::EveryPoll, bound: if t == 2 { 1 } else { if th { 1 } else { 0 } }, primal: false }); }
+        }
+    }
+    v
+}
+fn units_c05(th: bool) -> Vec<Unit> {
+    let mut v = vec![];
+    for (fam, idx, var) in instance_list(th) {
+        for cfg in cfgs12(1) {
+            for (t, b) in if th { vec![(2usize, 2usize), (3, 1)] } else { vec![(2usize, 1usize), (3, 0)] } {
+                v.push(Unit { fam: fam.clone(), idx, var, cfg, construct: t, run: t, cut: CutMode::EveryPoll, bound: b, primal: false });
+            }
+        }
+    }
+    v
+}
+fn units_c09(th: bool) -> Vec<Unit> { units_c03(th).into_iter().filter(|u| u.cfg.cache && u.run >= 2).collect() }
+fn units_c14(th: bool) -> Vec<Unit> {
+    let mut v = vec![];
+    for (fam, idx, var) in instance_list(th) { for cfg in cfgs12(1) { v.push(Unit { fam: fam.clone(), idx, var, cfg, construct: 2, run: 2, cut: CutMode::None, bound: 1, primal: true }); } }
+    v
+}
+
+fn unit_scope(units: &[Unit]) -> Value {
+    let mut insts: Vec<String> = units.iter().map(|u| format!("{}#{} [{}]", u.fam, u.idx, vshort(&u.var))).collect();
+    insts.sort();
+    insts.dedup();
+    json!({"instances": insts, "units": units.len()})
+}
+
+pub fn check(prop: &str, tier: &str) -> i32 {
+    let rep = Reporter::new(prop, tier);
+    let th = rep.thorough();
+    let units = if prop == "C03" { units_c03(th) } else { units_c04(th) };
+    let c = explore_units(&rep, &[prop], &units, if th { 1500.0 } else { 45.0 }, if th { 400_000 } else { 60_000 });
+    let mut cov = c.cov.clone();
+    cov["evaluations"] = json!(c.executions);
+    cov["distinct_nontrivial"] = json!(c.concurrent);
+    cov["rule"] = json!(if prop == "C03" {
+        "all schedules with at most k pre-emptions (k per class in by_class) of 1..3 (quick) / 1..4 (thorough) workers of the real ParallelSolver over the hooked synchronisation points, on the listed instances x 3 diagrams x cache on/off x 2 fringes; oracle in every execution: is_exact and best value == DP optimum; non-trivial = executions in which >= 2 workers processed sub-problems"
+    } else {
+        "the C03 exploration plus (i) construction/run thread-count pairs c != r, (ii) the cut-off firing at every poll index; monitors of the scheduler on every execution: deadlock (no enabled worker while one is parked = lost wake-up), worker crash, no termination within 50x the default schedule length under the fair default continuation, hang outside scheduling points, premature completion (a worker leaves with Complete while sub-problems are open or in progress); non-trivial = executions in which >= 2 workers processed sub-problems"
+    });
+    cov["scope"] = unit_scope(&units);
+    cov["exhaustive"] = json!(c.complete);
+    rep.finish("model_checking", cov, assumptions())
+}
+fn assumptions() -> Vec<String> {
+    vec![
+        "ddo has no unsafe code and all sharing goes through one parking_lot mutex, one condvar, the dashmap stores and the cut-off: interleavings of critical sections, single store operations and cut-off polls are the complete behaviour (sequential consistency for data-race-free programs)".to_string(),
+        "parking_lot condvars have no spurious wake-ups (documented); dashmap single-key operations are linearizable (C18 examines ddo's use of them under loom)".to_string(),
+        "bounded: pre-emption bound, number of workers and instances as listed; stateless search (no state matching)".to_string(),
+    ]
+}
+
+fn part(rep: &Reporter, focus: &str, units: Vec<Unit>, quick_s: f64, thorough_s: f64) -> (Value, bool) {
+    let th = rep.thorough();
+    let c = explore_units(rep, &[focus], &units, if th { thorough_s } else { quick_s }, if th { 300_000 } else { 40_000 });
+    let mut cov = c.cov;
+    cov["scope"] = unit_scope(&units);
+    (cov, c.complete)
+}
+pub fn c02_parallel_part(rep: &Reporter) -> (Value, bool) {
+    let th = rep.thorough();
+    let mut units = units_c03(th);
+    units.retain(|u| u.run >= 2);
+    if !th { units.retain(|u| u.run == 2); }
+    units.extend(units_c05(th).into_iter().filter(|u| u.run == 2));
+    part(rep, "C02", units, 30.0, 900.0)
+}
+pub fn c05_parallel_part(rep: &Reporter) -> (Value, bool) { part(rep, "C05", units_c05(rep.thorough()), 35.0, 1200.0) }
+pub fn c09_parallel_part(rep: &Reporter) -> (Value, bool) { part(rep, "C09", units_c09(rep.thorough()), 30.0, 900.0) }
+pub fn c14_parallel_part(rep: &Reporter) -> (Value, bool) { part(rep, "C14", units_c14(rep.thorough()), 15.0, 600.0) }
+
+/// re-executes one recorded schedule (replay files of this engine)
+pub fn replay(v: &Value) -> i32 {
+    let u = Unit::from_json(&v["unit"]);
+    let fam = family(&u.fam);
+    let m: Arc<dyn Model> = Arc::from(fam.build(u.idx, u.var));
+    let primal: Option<(isize, Vec<Decision>)> = if u.primal { let a = m.achievable(); if a.is_empty() { None } else { Some(a[a.len() / 2].clone()) } } else { None };
+    let fire_at = v["fire_at"].as_u64().map_or(usize::MAX, |x| x as usize);
+    let sched: Vec<usize> = v["schedule"].as_array().unwrap().iter().map(|x| x.as_u64().unwrap() as usize).collect();
+    ddo::verif::set_hook(Some(Arc::new(hook)));
+    let e = run_once(m.clone(), &u, fire_at, &primal, sched, 100_000);
+    println!("replay: completed={} deadlock={} crashed={:?} outcome={}", e.completed, e.deadlock, e.crashed, e.out.json());
+    println!("trace ({} decisions): {:?}", e.trace.len(), e.trace.iter().map(|c| (c.enabled.clone(), c.idx)).collect::<Vec<_>>());
+    let fs = judge_exec(m.as_ref(), &u, fire_at, primal.as_ref().map(|p| p.0), &e);
+    for x in fs.iter() { println!("VIOLATION-REPLAYED property={} sig={} : {}", x.prop, x.sig, x.what); }
+    if let Some(d) = e.diverged { println!("MACHINERY-ERROR {}", d); return 2; }
+    if fs.is_empty() { 0 } else { 1 }
+}
